@@ -67,6 +67,34 @@ class SumAgg(agg_base.AggregateFn):
     return r
   def get_result(self, state): return (state[0], state[1])
 
+if _VF_SYMBOLIC:
+  from crosshair.tracers import NoTracing as _untraced
+else:
+  import contextlib
+  _untraced = contextlib.nullcontext
+
+class SumAggL(agg_base.AggregateFn):
+  """Like SumAgg for batches (lists) of values: state = [sum, count]."""
+  def create_state(self): return [0, 0]
+  def update_state(self, state, xs):
+    for x in xs:
+      state[0] += x; state[1] += 1
+    return state
+  def merge_states(self, states):
+    states = list(states); r = states[0]
+    for s in states[1:]:
+      r[0] += s[0]; r[1] += s[1]
+    return r
+  def get_result(self, state): return (state[0], state[1])
+
+def _agg_key(res):
+  """agg_result -> sorted plain structure (slice keys are MetricKey objects)."""
+  out = []
+  for k, v in dict(res).items():
+    name = k if isinstance(k, str) else (k.metrics, tuple(k.slice.features), tuple(k.slice.values))
+    out.append((repr(name), tuple(v)))
+  return sorted(out)
+
 def _take(it, c):
   out = []
   for _ in range(c):
@@ -204,6 +232,22 @@ def gen(nmax, kmax, cmax, nested, three_cuts, pipes, heavy):
       it = mk().make(shard=shard).iterate()
       head = _take(it, c1)
       return not (len(head) >= 1 and len(list(it)) >= 1 and want_agg is not None)"""))
+  # sliced aggregate: per-slice states are part of the checkpoint (slice labels decided by a symbolic parity, values concrete)
+  for n in ((3, 4) if heavy else (3,)):
+    A(F(f'ob_pipe_sliced_n{n}', 'r: int, c1: int, c2: int', f'0 <= r <= 1 and 0 <= c1 <= {n} and 0 <= c2 <= 1', f"""
+      n = {n}
+      r = _conc(r, 1); c1 = _conc(c1, n); c2 = _conc(c2, 1)
+      # everything is concrete from here on (r, c1, c2 were decided by solver branches): the slicing code (numpy string masks)
+      # runs with opcode tracing switched off
+      with _untraced():
+        recs = [dict(g=['p' if i % 2 == r else 'q'], v=[i + 1]) for i in range(n)]
+        def mk():
+          return transform.TreeTransform.new().data_source(io.SequenceDataSource(list(recs))).agg(SumAggL(), input_keys='v', output_keys='s').add_slice('g')
+        ref_it = mk().make().iterate()
+        want = list(ref_it); want_agg = _agg_key(ref_it.agg_result)
+        got, it = _resume_chain(mk().make().iterate(), [c1, c2], None)
+        got_agg = _agg_key(it.agg_result)
+      return len(want_agg) == (3 if n > 1 else 2) and got == want and got_agg == want_agg"""))
   # chains of two named aggregating stages (the source length is enumerated: one contract function per n keeps the path count per function small)
   CH = """
       n = {n}
